@@ -25,17 +25,42 @@ theorem evsigDestroy_empty (h : Heap) : evsigDestroy {} h = .ok ({}, h) := by
 /-! ## socket event-loop handle -/
 
 theorem sockhInit_contract (f : Sched) (h : Heap) :
-    InitContract ({ a := .own, b := .own } : Two) {} 2 0 2 f h (sockhInit f h) := by
+    InitContract ({ q := .own, mtx := .own } : SockH) {} 2 0 2 f h (sockhInit f h) := by
   fault_tree f h.nacq 0 2 <;>
-  simp [*, InitContract, clean_succ, clean_zero, sockhInit, alloc, free, Grow, Failed, bind,
-    Except.bind, pure, Except.pure] <;> omega
+  simp [*, InitContract, clean_succ, clean_zero, sockhInit, sockhDestroy, ncDestroy, ncClear, npDestroy,
+    alloc, free, deref, Grow, Failed, bind, Except.bind, pure, Except.pure] <;> omega
 
-theorem sockhDestroy_built (h : Heap) :
-    sockhDestroy { a := .own, b := .own } h = .ok ({}, { h with mem := h.mem - 2 }) := by
-  simp [sockhDestroy, free, bind, Except.bind, pure, Except.pure]; omega
+def _root_.MgModel.C18.SockH.wf (s : SockH) : Prop :=
+  s.q = .own ∧ s.mtx = .own ∧ s.queue.wf ∧ s.queue.table = .null
+
+theorem sockhDestroy_wf (s : SockH) (h : Heap) (hs : s.wf) :
+    ∃ h', sockhDestroy s h = .ok ({}, h') ∧ h'.mem = h.mem - s.owned ∧ h'.fds = h.fds ∧ h'.inj = h.inj := by
+  obtain ⟨h1, h2, h3, h4⟩ := hs
+  obtain ⟨c', hh, hr, hm, hf, hn, hi⟩ := ncDestroy_spec s.queue
+    { mem := h.mem - 1, fds := h.fds, nacq := h.nacq, inj := h.inj } h3 h4
+  simp [sockhDestroy, h1, h2, hr, free, deref, bind, Except.bind, pure, Except.pure, SockH.owned]
+  simp at hm hf hi
+  refine ⟨?_, ?_, ?_⟩ <;> omega
 
 theorem sockhDestroy_empty (h : Heap) : sockhDestroy {} h = .ok ({}, h) := by
   simp [sockhDestroy, free, bind, Except.bind, pure, Except.pure]
+
+/-- `muggle_socket_evloop_add_ctx` on an initialised handle -/
+theorem sockhAddCtx_contract (f : Sched) (s : SockH) (h : Heap) (hs : s.wf) :
+    OpContractS SockH.wf SockH.owned zeroFd s h (sockhAddCtx f s h) := by
+  obtain ⟨h1, h2, h3, h4⟩ := hs
+  obtain ⟨c1, ok, hh1, hr, ⟨hw1, hm1, hf1, hn1, hi1, hc1⟩, hsame, _, _, ht1, _, _⟩ := ncAllocNode_spec f s.queue h h3
+  have hd1 : deref s.q = .ok () := by rw [h1]; rfl
+  have hd2 : deref s.mtx = .ok () := by rw [h2]; rfl
+  unfold sockhAddCtx
+  rw [hd1, hd2]
+  simp only [ncInsert, hr]
+  refine ⟨_, ok, hh1, rfl, ⟨⟨h1, h2, hw1, by rw [ht1, h4]⟩, ?_, hf1, hn1, hi1, hc1⟩, ?_⟩
+  · simp only [SockH.owned]; omega
+  · intro hk
+    have := hsame hk
+    subst this
+    rfl
 
 /-! ## socket event-loop pipe, socket -/
 
